@@ -1220,9 +1220,11 @@ func (w *coinswapWorkload) Next(block int) []rig.Tx {
 	}
 	defer func() { d.r.Snapshot = saved }()
 	var out []rig.Tx
+	d.next = d.r.Time.Add(5 * time.Second) // the shared chain's director chooses the real block time later
 	n := d.run.Rng.Intn(3)
 	for i := 0; i < n; i++ {
-		if tx, ok := d.intent(100, block); ok {
+		// mixed magnitudes: at 100 bits most one-sided operations end in the 256-bit range rejection
+		if tx, ok := d.intent(pick(d.run.Rng, 22, 40, 62, 100), block); ok {
 			out = append(out, tx)
 		}
 	}
